@@ -1,12 +1,182 @@
-(* Property C12 (placeholder while the proofs are being built). *)
+(* Property C12 — turmoil::net pairs every connect with exactly one accept, or
+   refuses it.  This file only states the theorems and closes them with the
+   lemmas of C12_proofs.v; see DESIGN.md section 5 (C12).
+
+   Model: TV.Conn.Model — hosts with listener binds and their SYN queues,
+   connector futures (poll / cancel), the stream tables of every host (an entry
+   is the existence of a socket in the connection's Stream data plane), links
+   with scripted maturing, partitions and the loopback path.  `final (init n cap
+   lo hi) es` is the state after an arbitrary event list: theorems quantify over
+   every interleaving of binds, connects, polls, cancels (also by timeout),
+   accepts, listener drops and re-binds, data-plane calls on every established
+   stream, delivery orders, partitions and host turns. *)
 From TV.Lib Require Import Base.
-From TV.Conn Require Import Gen Model.
+From TV.Stream Require Import Model Refs.
+From TV.Conn Require Import Gen Model Facts C12_proofs.
 Close Scope N_scope.
 
-Example c12_nonvacuous :
-  exists l r, nth 5 (snd (run (init 2 2 default_eph_lo default_eph_hi)
-     [Bind 1 1 IpUnspec 9000; Connect 0 1 (IpHost 1, 9000%N); Mature 0 1 [0]; Drain 1; Accept 1 1 100; Poll 0])) RNone
-   = RConnOk l r.
-Proof. eexists. eexists. vm_compute. reflexivity. Qed.
+(* Pairing.  In every reachable state, for every connection c:
+   a connect that returned Ok (future state FutOk) was accepted — its id is in the
+   accept log; it is in the accept log exactly when a server-side stream was created
+   for it; and the accepted stream's addresses mirror the connector's: its local
+   address is the connector's peer, its peer is the connector's local address, on the
+   host that owns the destination.
+   (_partial: that the accept log holds no id twice — a SYN is acknowledged at most
+   once — needs a conservation invariant for SYN tokens, which in the code is Rust's
+   move semantics of `Syn { ack }`; it is checked by the correspondence and the python
+   oracle only.) *)
+Theorem c12_pairing_partial : forall n cap lo hi es c k,
+  let w := final (init n cap lo hi) es in
+  get_conn w c = Some k ->
+  (k_fut k = FutOk -> In c (w_accepts w)) /\
+  (In c (w_accepts w) <-> k_srv k <> None) /\
+  (forall d l p, k_srv k = Some (d, l, p) -> l = k_remote k /\ p = k_local k /\ k_dhost k = Some d).
+Proof. intros. apply pairing_lemma; [apply reach_winv|assumption]. Qed.
 
+(* A pending connect completes with Ok exactly when its SYN was acknowledged by an
+   accept, with Refused exactly when its SYN (and the ack channel it carries) was
+   dropped; it pends only while the SYN is in flight or queued at a listener. *)
+Theorem c12_poll_decided : forall w c k,
+  get_conn w c = Some k -> k_fut k = FutPending ->
+  (k_syn k = SynGone -> snd (do_poll w c) = RRefused) /\
+  (k_syn k = SynAcked -> snd (do_poll w c) = RConnOk (k_local k) (k_remote k)) /\
+  (snd (do_poll w c) = RPending <-> k_syn k = SynFlight \/ k_syn k = SynQueued).
+Proof. exact poll_decided. Qed.
+
+(* Accept order.  For every live listener in every reachable state, the SYNs that
+   arrived at it are, in arrival order, exactly the ones accept has popped so far
+   followed by the ones still queued (FIFO); and an accept takes the first queued
+   SYN whose connector still waits, skipping (and discarding) the ones that gave up. *)
+Theorem c12_fifo : forall n cap lo hi es h hs port b,
+  let w := final (init n cap lo hi) es in
+  get_host w h = Some hs -> In (port, b) (h_binds hs) ->
+  b_arrived b = map fst (b_popped b) ++ map fst (b_deque b).
+Proof. intros. eapply fifo_lemma; eauto. apply reach_winv. Qed.
+
+Theorem c12_accept_first_alive : forall w dq,
+  match pop_alive w dq with
+  | (rest, pops, Some (c, o)) =>
+      exists pre, dq = pre ++ (c, o) :: rest /\ (forall x, In x pre -> alive w (fst x) = false) /\
+                  alive w c = true /\ pops = map (fun x => (fst x, false)) pre ++ [(c, true)]
+  | (rest, pops, None) =>
+      rest = [] /\ (forall x, In x dq -> alive w (fst x) = false) /\ pops = map (fun x => (fst x, false)) dq
+  end.
+Proof. exact pop_alive_first. Qed.
+
+Theorem c12_accept_result : forall w h lid sid hs port b,
+  get_host w h = Some hs -> find_lid hs lid = Some (port, b) ->
+  match pop_alive w (b_deque b) with
+  | (_, _, Some (c, o)) => exists my, snd (do_accept w h lid sid) = RAccOk my o /\
+                                      w_accepts (fst (do_accept w h lid sid)) = w_accepts w ++ [c]
+  | (_, _, None) => snd (do_accept w h lid sid) = RPending /\
+                    w_accepts (fst (do_accept w h lid sid)) = w_accepts w
+  end.
+Proof. exact accept_result. Qed.
+
+(* Refusal instead of a hang: an address no host owns and a partitioned direction
+   refuse at once; a SYN that reaches a host where nobody listens on its port, or whose
+   listener is bound to another address, is dropped; dropping a listener drops every
+   queued SYN; a dropped SYN makes the next poll return ConnectionRefused (c12_poll_decided)
+   and removes the client's table entry. *)
+Theorem c12_refused_unowned : forall w h sid dport,
+  assign_port w h <> None -> snd (do_connect w h sid (IpNobody, dport)) = RRefused.
+Proof. exact connect_unowned_refused. Qed.
+
+Theorem c12_refused_partitioned : forall w h sid d dport l0,
+  assign_port w h <> None -> d <> h -> (d <? nhosts w)%N = true ->
+  find (fun l => on_link l h d) (w_links w) = Some l0 -> cut_from l0 h = true ->
+  snd (do_connect w h sid (IpHost d, dport)) = RRefused.
+Proof. exact connect_partitioned_refused. Qed.
+
+Theorem c12_refused_no_listener : forall w d c k hs,
+  get_conn w c = Some k -> get_host w d = Some hs ->
+  (find_bind hs (snd (k_remote k)) = None \/
+   exists b, find_bind hs (snd (k_remote k)) = Some b /\ length (b_deque b) <> w_cap w /\
+             bind_matches (b_ip b) (fst (k_remote k)) = false) ->
+  get_conn (fst (syn_arrive w d c)) c = Some (set_syn k SynGone).
+Proof. exact syn_arrive_refused. Qed.
+
+Theorem c12_refused_listener_dropped : forall w h lid hs port b c o k,
+  get_host w h = Some hs -> find_lid hs lid = Some (port, b) -> In (c, o) (b_deque b) ->
+  get_conn w c = Some k ->
+  exists k', get_conn (fst (do_drop_listener w h lid)) c = Some k' /\ k_syn k' = SynGone /\ k_fut k' = k_fut k.
+Proof. exact drop_listener_refuses. Qed.
+
+Theorem c12_refused_removes_entry : forall w c k,
+  get_conn w c = Some k -> k_fut k = FutPending -> k_syn k = SynGone ->
+  exists k', get_conn (fst (do_poll w c)) c = Some k' /\ k_fut k' = FutRefused /\
+             forall h, client_entry h k' = false.
+Proof. exact poll_refused_no_entry. Qed.
+
+(* No residue.  In every reachable state a host's stream table holds an entry for a
+   connection only while somebody can still use it: the client entry exists only while the
+   connect is pending or returned Ok and one of the two halves of the client stream is
+   alive; the server entry only while one half of the accepted stream is alive.  In
+   particular a refused or cancelled connect and a stream whose halves were both dropped
+   are not counted by established_tcp_stream_count (stream_count). *)
+Theorem c12_no_residue : forall n cap lo hi es c k,
+  let w := final (init n cap lo hi) es in
+  get_conn w c = Some k ->
+  (forall h, client_entry h k = true ->
+     (k_fut k = FutPending \/ k_fut k = FutOk) /\
+     (S.rd (S.eps (k_sys k) S.A) <> None \/ S.wr (S.eps (k_sys k) S.A) <> None)) /\
+  (forall h, server_entry h k = true ->
+     k_srv k <> None /\ (S.rd (S.eps (k_sys k) S.B) <> None \/ S.wr (S.eps (k_sys k) S.B) <> None)).
+Proof. intros n cap lo hi es c k w Hc. apply (no_residue_lemma w c k); [apply reach_winv|exact Hc]. Qed.
+
+Theorem c12_cancel_removes_entry : forall w c k,
+  get_conn w c = Some k -> k_fut k = FutPending ->
+  exists k', get_conn (fst (do_cancel w c)) c = Some k' /\ k_fut k' = FutCancelled /\
+             forall h, client_entry h k' = false.
+Proof. exact cancel_no_entry. Qed.
+
+(* Non-vacuity.  Three connectors on two hosts; the SYNs of connectors 0 and 1 are
+   delivered in the opposite order; connector 1 (first to arrive) gives up; the listener
+   accepts connector 0 (skipping 1), then connector 2 from its own host through 127.0.0.1;
+   a fourth connect to a port nobody listens on is refused; both sides drop and the tables
+   are empty again.  On the semantics before fix 5100556 the refused and the cancelled
+   connect each leave an entry: corpus/C12/refused_connect_residue.json. *)
+Definition h_demo : list ev :=
+  [Bind 1 1 IpUnspec 9000;
+   Connect 0 1 (IpHost 1, 9000%N); Connect 0 2 (IpHost 1, 9000%N); Connect 1 3 (IpLoop, 9000%N);
+   Connect 0 4 (IpHost 1, 9001%N);
+   Mature 0 1 [1]; Drain 1; Mature 0 1 [0]; Drain 1; Mature 0 1 [0]; Drain 1;
+   LoopStep 1; LoopStep 1;
+   Cancel 1;
+   Accept 1 1 100; Accept 1 1 101; Accept 1 1 102;
+   Poll 0; Poll 1; Poll 2; Poll 3;
+   Count 0; Count 1;
+   SOp 0 1 (S.DropR S.A); SOp 0 1 (S.DropW S.A); SOp 1 3 (S.DropR S.A); SOp 1 3 (S.DropW S.A);
+   SOp 1 100 (S.DropR S.B); SOp 1 100 (S.DropW S.B); SOp 1 101 (S.DropR S.B); SOp 1 101 (S.DropW S.B);
+   Count 0; Count 1].
+
+Example c12_nonvacuous :
+  let w := final (init 2 4 49152 65535) h_demo in
+  w_accepts w = [0%N; 2%N] /\
+  (exists hs b, get_host w 1 = Some hs /\ h_binds hs = [(9000%N, b)] /\
+                b_arrived b = [1%N; 0%N; 2%N] /\ b_popped b = [(1%N, false); (0%N, true); (2%N, true)]) /\
+  map (fun i => nth i (snd (run (init 2 4 49152 65535) h_demo)) RNone) [14; 15; 16; 17; 18; 19; 20; 21; 22; 31; 32] =
+    [RAccOk (IpHost 1, 9000%N) (IpHost 0, 49152%N); RAccOk (IpLoop, 9000%N) (IpLoop, 49152%N); RPending;
+     RConnOk (IpHost 0, 49152%N) (IpHost 1, 9000%N); RInvalid; RConnOk (IpLoop, 49152%N) (IpLoop, 9000%N); RRefused;
+     RCount 1; RCount 3; RCount 0; RCount 0].
+Proof.
+  cbv zeta. split; [vm_compute; reflexivity|]. split; [|vm_compute; reflexivity].
+  eexists. eexists. split; [vm_compute; reflexivity|]. vm_compute. repeat split; reflexivity.
+Qed.
+
+Check c12_no_residue.
+Check c12_fifo.
+
+Print Assumptions c12_pairing_partial.
+Print Assumptions c12_poll_decided.
+Print Assumptions c12_fifo.
+Print Assumptions c12_accept_first_alive.
+Print Assumptions c12_accept_result.
+Print Assumptions c12_refused_unowned.
+Print Assumptions c12_refused_partitioned.
+Print Assumptions c12_refused_no_listener.
+Print Assumptions c12_refused_listener_dropped.
+Print Assumptions c12_refused_removes_entry.
+Print Assumptions c12_no_residue.
+Print Assumptions c12_cancel_removes_entry.
 Print Assumptions c12_nonvacuous.
